@@ -19,13 +19,17 @@ RULE = ("seeded histories on ITML/MMC/SDML (pairs), SCML (triplets), LSML (quadr
         "fit(calibration_params), set_threshold (floats, ints, numpy scalars, the classifier's own "
         "distance of a probe pair, invalid values), threshold sweeps, calibrate_threshold (valid and "
         "invalid), refit, pickle restart, then predict/decision_function/score on probes with "
-        "identical points, duplicated/swapped tuples, exact ties, indices through a preprocessor; "
+        "identical points, duplicated/swapped tuples, exact ties (also ties by translation on a dyadic "
+        "grid, also far from the origin), near ties, indices through a preprocessor; "
         "non-trivial = >=1 classifier query checked against the reference; distinct = distinct "
         "(op:estimator/method) sequences")
 REAL_VS_STUB = dict(real=["metric_learn", "numpy", "scipy", "scikit-learn (roc_auc_score)"],
                     stub=["preprocessor PointStore", "ambient RNG state", "simulated clock"])
-ASSUMPTIONS = ["'learned distance' is the estimator's own pair_distance on the formed pairs "
-               "(its link to components_ is C02, not claimed)",
+ASSUMPTIONS = ["'learned distance' is the estimator's own pair_distance on the formed pairs; it is "
+               "additionally compared with ||L(x-x')|| computed from components_ at a loose tolerance "
+               "(1e-7 relative + 1e-10 |L|^2 |x-x'|^2 on squared distances)",
+               "tuples built by translation on a dyadic grid have exactly equal compared distances "
+               "whatever the metric: they must be treated as ties",
                "decision_function vs distance compared within 2 ulp; predictions compared exactly "
                "against the value the classifier itself compares"]
 
@@ -197,10 +201,72 @@ class Oracle(object):
       if not close_diff(df2, -df, np.maximum(dab, dcd)):
         raise Violation("quadruplets_swap", "cls=%s" % h.name,
                         "swapping the pairs does not negate the decision function")
+    if live["via"] == "formed":
+      self.check_geometry(m, h, est, formed, ts, df, pred, live.get("probe_info"))
     self.checked += 1
     m.cov["classifier_queries_checked"] += 1
     m.cov["checked_via_" + live["via"]] += 1
     m.cov["checked_writer_" + _writer(h)] += 1
+
+
+def _check_geometry(self, m, h, est, formed, ts, df, pred, info):
+  """(i) the distances the classifier compares are the learned distances
+  ||L (x - x')|| (loose tolerance, relative to the *difference*: an
+  implementation that loses the difference of large coordinates fails it);
+  (ii) tuples whose compared distances are equal by construction (translates
+  on a dyadic grid) are ties: triplets -> decision 0 / prediction -1,
+  quadruplets -> prediction 0, pairs -> equal decisions and predictions."""
+  L = vars(est).get("components_")
+  if not isinstance(L, np.ndarray) or L.ndim != 2 or not np.isfinite(L).all() or np.iscomplexobj(L):
+    return
+  F = np.asarray(formed, dtype=float)
+  nL2 = float(np.linalg.norm(L, 2)) ** 2
+  cmp_pairs = [(0, 1)] if ts == 2 else ([(0, 1), (0, 2)] if ts == 3 else [(0, 1), (2, 3)])
+  for i, j in cmp_pairs:
+    v = F[:, j] - F[:, i]
+    ref2 = ((v.dot(L.T)) ** 2).sum(axis=1)
+    got = np.asarray(est.pair_distance(F[:, [i, j]]), dtype=float)
+    tol = 1e-7 * ref2 + 1e-10 * nL2 * (v ** 2).sum(axis=1) + 1e-300
+    bad = np.abs(got ** 2 - ref2) > tol
+    if np.any(bad):
+      k = int(np.argmax(bad))
+      raise Violation("learned_distance", "cls=%s,far=%d" % (h.name, int(bool(info and info.get("far")))),
+                      "pair_distance=%r but ||L(x-x')||=%r for x=%r x'=%r"
+                      % (float(got[k]), float(np.sqrt(ref2[k])), F[k, i].tolist(), F[k, j].tolist()))
+  m.cov["learned_distance_checked"] += 1
+  if info and info.get("far"):
+    m.cov["far_offset_probes"] += 1
+  if not info or not info.get("ties"):
+    return
+  rows = [r_ for r_ in info["ties"] if r_ < len(F)]
+  if ts == 3:
+    for r_ in rows:
+      m.cov["ties_by_translation"] += 1
+      if df[r_] != 0 or pred[r_] != -1:
+        raise Violation("triplets_predict", "cls=%s,tie_by_translation" % h.name,
+                        "triplet (a, a+v, a-v) has d(a,b) == d(a,c): decision %r (must be 0), "
+                        "prediction %r (must be -1); a=%r v=%r"
+                        % (float(df[r_]), int(pred[r_]), F[r_, 0].tolist(), (F[r_, 1] - F[r_, 0]).tolist()))
+  elif ts == 4:
+    for r_ in rows:
+      m.cov["ties_by_translation"] += 1
+      if df[r_] != 0 or pred[r_] != 0:
+        raise Violation("quadruplets_predict", "cls=%s,tie_by_translation" % h.name,
+                        "quadruplet whose second pair is a translate of the first: decision %r, "
+                        "prediction %r (both must be 0)" % (float(df[r_]), int(pred[r_])))
+  else:
+    for r_ in rows:
+      if r_ + 1 >= len(F):
+        continue
+      m.cov["ties_by_translation"] += 1
+      if df[r_] != df[r_ + 1] or (pred is not None and pred[r_] != pred[r_ + 1]):
+        raise Violation("pairs_predict", "cls=%s,tie_by_translation" % h.name,
+                        "two pairs with the same displacement: decisions %r / %r, predictions %r / %r"
+                        % (float(df[r_]), float(df[r_ + 1]),
+                           None if pred is None else int(pred[r_]), None if pred is None else int(pred[r_ + 1])))
+
+
+Oracle.check_geometry = _check_geometry
 
 
 def _writer(h):
@@ -224,7 +290,7 @@ def _valid_cp(cp):
 def gen_plan(seed, tier):
   return gen_history(
       seed, tier, classes=TUPLE_LEARNERS, n_ops=(6, 16), dmax=6, pre_p=0.4, classifier_bias=4,
-      dataset_kinds=["blobs", "blobs", "grid"], tiny_scale_p=0.15,
+      dataset_kinds=["blobs", "blobs", "grid"], tiny_scale_p=0.15, grid_p=0.3,
       weights=dict(query=40, refit=8, threshold=18, calibrate=10, sweep=8, handout=0, mutate=0,
                    restart=5, clone=2, ambient=2, eigsh=0, set_nondata=2, failfit=2,
                    fault=0, new=6, swap_pre=4))
